@@ -1,0 +1,32 @@
+// SPDX-FileCopyrightText: 2026 The Pion community <https://pion.ly>
+// SPDX-License-Identifier: MIT
+
+//go:build verif
+
+package report
+
+import (
+	"time"
+
+	"github.com/pion/rtp"
+)
+
+// C12ReceiverStream wraps the unexported receiverStream (property C12:
+// container sizes). Only compiled with the "verif" build tag.
+type C12ReceiverStream struct{ s *receiverStream }
+
+// C12NewReceiverStream calls newReceiverStream.
+func C12NewReceiverStream(ssrc, clockRate uint32) *C12ReceiverStream {
+	return &C12ReceiverStream{s: newReceiverStream(ssrc, clockRate)}
+}
+
+// ProcessRTP calls processRTP.
+func (v *C12ReceiverStream) ProcessRTP(now time.Time, seq uint16, ts uint32) {
+	v.s.processRTP(now, &rtp.Header{Version: 2, SequenceNumber: seq, Timestamp: ts, SSRC: v.s.ssrc})
+}
+
+// Report calls generateReport.
+func (v *C12ReceiverStream) Report(now time.Time) { _ = v.s.generateReport(now) }
+
+// Words returns len(packets).
+func (v *C12ReceiverStream) Words() int { return len(v.s.packets) }
